@@ -112,9 +112,12 @@ def gen_mixfit(g, kind=None, thorough=False):
         N = int(g.rng.randint(260, 600))    # size-dependent code paths
     a = {'op': 'mixfit', 'kind': kind, 'K': K, 'D': D, 'F': F, 'N': N, 'E': E}
     if kind in models.COMPLEX_OBS:
-        a['obs'] = _mk(g, g.choice(['cnormal', 'cclusters']), lead + [N, D], K=K)
+        a['obs'] = _mk(g, g.choice(['cnormal', 'cclusters', 'cclusters']),
+                       lead + [N, D], K=K,
+                       spread=float(g.choice([1.0, 1.0, 0.3, 0.05, 0.01])))
     elif kind == 'vmfmm':
-        a['obs'] = _mk(g, g.choice(['normal', 'rclusters']), lead + [N, D], K=K)
+        a['obs'] = _mk(g, g.choice(['normal', 'rclusters']), lead + [N, D], K=K,
+                       sep=float(g.choice([2.0, 2.0, 6.0, 30.0])))
     else:
         a['obs'] = _mk(g, 'rclusters', lead + [N, D], K=K,
                        scale=float(g.choice([1.0, 1.0, 1e-2, 30.0])))
@@ -187,6 +190,8 @@ def gen_mixfit(g, kind=None, thorough=False):
     a['iterations'] = int(g.rng.randint(1, 9)) if kind != 'cbmm' \
         else int(g.choice([1, 2]))
     a['fault'] = None
+    # fit_predict = fit, then the Bayes posterior of the returned model
+    a['method'] = 'fit_predict' if g.coin(0.2) else 'fit'
     return a
 
 
@@ -200,9 +205,19 @@ def gen_distfit(g):
     lead = [int(x) for x in g.choice([[], [], [2], [2, 3]])]
     if kind == 'bingham':
         lead = []
+    if kind in ('watson', 'vmf', 'gaussian', 'ccsg') and g.coin(0.3):
+        D = int(g.choice([2, 6, 7, 8]))
+        N = max(N, D + 2)
     a = {'op': 'distfit', 'kind': kind, 'D': D, 'opts': {}}
+    # directional trainers: visit the whole concentration range
+    noise = float(10 ** g.rng.uniform(-3, -0.3))
     if kind in ('ccsg', 'watson', 'bingham'):
-        a['y'] = _mk(g, 'cnormal', lead + [N, D])
+        if kind != 'ccsg' and g.coin(0.5):
+            a['y'] = _mk(g, 'cconcentrated', lead + [N, D], noise=noise)
+        else:
+            a['y'] = _mk(g, 'cnormal', lead + [N, D])
+    elif kind == 'vmf' and g.coin(0.5):
+        a['y'] = _mk(g, 'rconcentrated', lead + [N, D], noise=noise)
     else:
         a['y'] = _mk(g, g.choice(['normal', 'rclusters']), lead + [N, D], K=2)
     sk = g.choice(['none', 'real', 'int', 'real'])
@@ -400,7 +415,7 @@ def _component_check(tr, kind, model, z_obs, emb, gamma, qf, opts, tk,
         tol = 1e-6 if mk.get('spline_markers', 1000) >= 1000 else 1e-4
         return S.check_watson(model.complex_watson, z_obs, gamma,
                               max_concentration=mk.get('max_concentration', 500),
-                              ratio_tol=tol)
+                              ratio_tol=tol, stats=tr.count)
     if kind == 'cbmm':
         mk = tk.get('cbmm') or {}
         return S.check_bingham(model.complex_bingham, z_obs, gamma,
@@ -413,7 +428,7 @@ def _component_check(tr, kind, model, z_obs, emb, gamma, qf, opts, tk,
     if kind == 'vmfmm':
         return S.check_vmf(model.vmf, z_obs, gamma,
                            opts.get('min_concentration', 1e-10),
-                           opts.get('max_concentration', 500))
+                           opts.get('max_concentration', 500), stats=tr.count)
     if kind in models.INTEGRATION:
         m = S.check_cacg(model.cacg, z_obs, gamma, qf, opts)
         if m:
@@ -427,7 +442,7 @@ def _component_check(tr, kind, model, z_obs, emb, gamma, qf, opts, tk,
                                          fixed_cov)
         return S.check_vmf(model.vmf, e2, g2,
                            opts.get('min_concentration', 1e-10),
-                           opts.get('max_concentration', 500))
+                           opts.get('max_concentration', 500), stats=tr.count)
     raise ValueError(kind)
 
 
@@ -518,13 +533,15 @@ def run_mixfit(tr, op, program):
                     try:
                         returned = models.call_fit(
                             kind, trainer, obs, emb, start, op['iterations'],
-                            opts, saliency=sal, num_classes=K, extra=extra)
+                            opts, saliency=sal, num_classes=K, extra=extra,
+                            method=op.get('method', 'fit'))
                     finally:
                         fired = shim.fired[0] if shim.fired else None
             else:
                 returned = models.call_fit(
                     kind, trainer, obs, emb, start, op['iterations'], opts,
-                    saliency=sal, num_classes=K, extra=extra)
+                    saliency=sal, num_classes=K, extra=extra,
+                    method=op.get('method', 'fit'))
     except SimulatedCancel:
         outcome = 'cancelled'
         tr.count('fault_fired:cancel')
@@ -557,7 +574,17 @@ def run_mixfit(tr, op, program):
             return
         last = reports[-1][1]
         from . import digest as dg
-        if returned is not last and dg.first_difference(returned, last, 'model'):
+        if op.get('method') == 'fit_predict':
+            exp = models.bayes_posterior(kind, last, obs, emb)
+            if not isinstance(returned, np.ndarray) or returned.shape != exp.shape \
+                    or not np.max(np.abs(returned - exp)) <= 1e-10:
+                tr.viol('R0', entry, 'fit_predict does not return the Bayes '
+                        'posterior of the model of the last EM step',
+                        **fault_note)
+                return
+            tr.count('fit_predict_comparisons')
+            returned = None
+        elif returned is not last and dg.first_difference(returned, last, 'model'):
             tr.viol('R0', entry, 'the returned model is not the model of the '
                     'last EM step: ' + dg.first_difference(returned, last, 'model'),
                     **fault_note)
@@ -848,7 +875,7 @@ def _dist_check(tr, kind, model, y, gamma, opts):
                  concentration=np.asarray(model.concentration)[..., None])
         return S.check_vmf(ns, S.unit_rows(y), gamma,
                            opts.get('min_concentration', 1e-10),
-                           opts.get('max_concentration', 500))
+                           opts.get('max_concentration', 500), stats=tr.count)
     if kind == 'watson':
         mk = tr.tk.get('dist:watson') or {}
         ns = _NS(mode=np.asarray(model.mode)[..., None, :],
@@ -856,7 +883,8 @@ def _dist_check(tr, kind, model, y, gamma, opts):
         return S.check_watson(
             ns, S.unit_rows(y), gamma,
             max_concentration=mk.get('max_concentration', 500),
-            ratio_tol=1e-6 if mk.get('spline_markers', 1000) >= 1000 else 1e-4)
+            ratio_tol=1e-6 if mk.get('spline_markers', 1000) >= 1000 else 1e-4,
+            stats=tr.count)
     if kind == 'bingham':
         ns = _NS(covariance_eigenvectors=np.asarray(model.covariance_eigenvectors)[..., None, :, :],
                  covariance_eigenvalues=np.asarray(model.covariance_eigenvalues)[..., None, :])
